@@ -16,7 +16,9 @@ CLAIMED = {
                 "The affine-row step tighten_affine_form (term ranges, prefix / suffix sums, (required - others) / c per variable) is proved under the same statement (U07.aff), given a well-formed affine form. "
                 "That form is itself under contract (U07.form): AffineForm::from_exp / from_constraint return a form whose value IS the expression's value (lhs - rhs for a constraint) wherever that is defined, with finite non-zero coefficients only, "
                 "and AffineForm::merge adds multiplier x other term by term over the insertion-ordered map (insert / update / removal of cancelling coefficients); AffineForm::scale (retain with a mutating closure, read as a position loop by rule R53) multiplies every coefficient and the constant and drops the coefficients that become zero (U07.scale). "
-                "NOT decided deductively: the propagation loop (queue, dependencies), from_domain, apply_to_domain (publication, integer rounding): these are covered only by a BOUNDED search over "
+                "The propagation loop itself (a statement slice of propagate_affine_constraints: queue, requeueing through the dependency table, step limit, stop on infeasibility) is proved sound for EVERY schedule (U07.loop): an assignment inside the starting box "
+                "at which every constraint's comparison holds stays inside the box, given forms related to their constraints as from_constraint guarantees; index errors are panics (rule R54) about which nothing is claimed. "
+                "NOT decided deductively: the statements before the loop (building forms and dependencies: iterator chains), from_domain, apply_to_domain (publication, integer rounding): these are covered only by a BOUNDED search over "
                 "the whole real analyser (18 systems x 3 domains x 3 step limits). That search exposes one KNOWN FINDING (recorded, not repaired): real bounds inexact in floating point are published without outward rounding. "
                 "Proof level because the statement is a for-all over reals and infinities that no grid of tests covers.",
         "note": "Trusted: prelude/f64_layer.rs (f64 treated as exact extended reals, IEEE special-value tables). Rounding error of finite arithmetic is out of reach and said so.",
